@@ -31,6 +31,9 @@ inductive Err where
   /-- `update_from_query`: `BuildError` (missing / non-numeric / out-of-range starting charge); also
   the build errors of the configuration layer (speed table, unknown `model_name`) -/
   | build
+  /-- `PredictionModelRecord::predict`: the cache policy rejected the key (`CacheFailure`): its
+  `key_precisions` does not have one entry per model input -/
+  | cache
   /-- `estimate_traversal`: the haversine code rejected a coordinate -/
   | haversine
   /-- `get_headings`: edge id not in the headings table -/
@@ -42,6 +45,7 @@ def Err.name : Err → String
   | .gradeTable => "grade_table"
   | .timeCreate => "time_create"
   | .build => "build"
+  | .cache => "cache"
   | .haversine => "haversine"
   | .headingTable => "heading_table"
 
@@ -194,6 +198,9 @@ structure Cache (K α : Type) where
   capacity : Nat
   keyOf : α → α → K
   entries : List (K × α)
+  /-- the policy has one `key_precisions` entry per input of the prediction model (speed, grade);
+  `FloatCachePolicy::get` / `update` reject a key of any other length -/
+  arityOk : Bool := true
 
 section Cache
 variable {K α : Type} [DecidableEq K]
@@ -411,19 +418,38 @@ def Vehicle.bestCaseEnergy (v : Vehicle α) (distance : α) (du : DistanceUnit) 
   | .bev r _ => createEnergy r.idealRate r.rateUnit distance du
   | .phev _ dep _ => createEnergy dep.idealRate dep.rateUnit distance du
 
-/-- `VehicleType::best_case_energy_state`.  BEV / PHEV hand the energy — a number in the rate's
-energy unit — to `add_energy` and `update_soc_percent` as if it were in the battery unit. -/
+/-- `VehicleType::best_case_energy_state`: the best-case energy is recorded in the unit it is in (the
+rate's energy unit) and moves the charge by its value in the battery's unit, as `consume_energy` does -/
 def Vehicle.bestCaseEnergyState (v : Vehicle α) (fu : FeatureUnits) (distance : α) (du : DistanceUnit)
     (s : VState α) : VState α :=
-  let e := (v.bestCaseEnergy distance du).1
+  let (e, u) := v.bestCaseEnergy distance du
   match v with
   | .ice r => addLiquid fu s e r.rateUnit.associatedEnergyUnit
   | .bev _ b =>
-    let s1 := addElectric fu s e b.unit
-    updateSocPercent s1 e b.capacity
+    let batteryDelta := u.convert b.unit e
+    let s1 := addElectric fu s e u
+    updateSocPercent s1 batteryDelta b.capacity
   | .phev _ _ b =>
-    let s1 := addElectric fu s e b.unit
-    updateSocPercent s1 e b.capacity
+    let batteryDelta := u.convert b.unit e
+    let s1 := addElectric fu s e u
+    updateSocPercent s1 batteryDelta b.capacity
+
+/-- the cache the vehicle's next prediction goes through (for a PHEV the charge decides the record) -/
+def Vehicle.cacheInUse (v : Vehicle α) (c : Caches K α) (s : VState α) : Option (Cache K α) :=
+  match v with
+  | .ice _ => c.main
+  | .bev _ _ => c.main
+  | .phev _ _ _ => if (zero : α) < s.soc then c.main else c.sustain
+
+/-- `FloatCachePolicy::get`: a two-value key is accepted only by a policy with two `key_precisions` -/
+def cacheAccepts (c : Option (Cache K α)) : Bool :=
+  match c with
+  | none => true
+  | some c => c.arityOk
+
+/-- `get_model_record_from_params`: a `float_cache_policy` without exactly two `key_precisions` is a
+configuration error -/
+def cachesConfigOk (c : Caches K α) : Bool := cacheAccepts c.main && cacheAccepts c.sustain
 
 /-- `f64::MAX` -/
 def f64Max : α := Lit.lit (2 ^ 1024 - 2 ^ 971) 1
@@ -523,7 +549,9 @@ def traverseEdge (svc : Service α) (eng : SpeedEngine α) (v : Vehicle α) (fu 
     | .error e => .error e
     | .ok grade =>
       let speed := reconstructSpeed svc fu edge prev s1
-      .ok (v.consumeEnergy fu st.2 speed svc.timeModelSpeedUnit grade svc.gradeUnit distance svc.distanceUnit s1)
+      if cacheAccepts (v.cacheInUse st.2 s1) then
+        .ok (v.consumeEnergy fu st.2 speed svc.timeModelSpeedUnit grade svc.gradeUnit distance svc.distanceUnit s1)
+      else .error .cache
 
 /-- `EnergyTraversalModel::estimate_traversal`; `hm` is the great-circle distance in metres -/
 def estimateTraversal (svc : Service α) (eng : SpeedEngine α) (maxSpeed : α) (v : Vehicle α)
